@@ -12,6 +12,8 @@ return of the last live request, against a borrow, and against the last live req
 request's timer thread against the reactor processing the response to that very request, before and
 during a replacement; a borrower inside borrow_connection() (preempted at any line, or waiting for a
 slot) while the threshold is passed and the replacement runs to completion on other threads.
+Fault: the socket of a pool connection is not writable (send_msg refuses the request with ConnectionBusy and
+the slot is given back unused), also for a request between whose borrow and send the replacement completes.
 """
 from vt import explore, sched
 from vt import poollib    # noqa: F401  (imported here so that forked workers inherit the loaded driver)
@@ -27,7 +29,12 @@ META = {
             'replacement-and-retry-queued-3-live and late-timeout-overloaded-2-live; the retry is an executor task), '
             'client timeout of any request whose timer runs (incl. a request whose response has already been processed and whose retry is '
             'still queued: its stream is no longer on the wire), next executor task (replacement or retry) with its connect accepted or '
-            'refused (then retried); started from the fresh pool and from states where the connection has just reached the threshold with '
+            'refused (then retried); in the harnesses *-unwritable-gap (0 and 1 live requests on the connection that has just '
+            'reached the threshold; thorough: also replacement queued with 2 live) additionally the environment answer "the socket of '
+            'pool connection #n is not writable" (once per history, any open connection; it may become writable again: '
+            'Connection.send_msg refuses a request with ConnectionBusy while it lasts and the slot is given back with nothing on the '
+            'wire) and, once per history, a request between whose borrow and send the next executor task (the replacement, possibly '
+            'queued by that very borrow) runs to completion; started from the fresh pool and from states where the connection has just reached the threshold with '
             '0, 1 or 2 live requests on it; also from the state with the replacement queued, three live requests and an answered request '
             'whose retry is queued and whose timer is still running, and from the 2-live state reached after such a timer fired.  A hook '
             'on close() '
@@ -43,7 +50,9 @@ META = {
             'the three live requests one by one; and the same race while the replacement task runs; a borrower preempted anywhere inside '
             'borrow_connection() -- or waiting there for a slot on a full connection -- while on other threads, as whole handlers in a '
             'fixed order, the connection it has read goes over the threshold, a further request queues the replacement, the replacement '
-            'runs and the last live request on the old connection is answered or given up, before or after the replacement) '
+            'runs and the last live request on the old connection is answered or given up, before or after the replacement; '
+            'a client whose send is refused because the overloaded connection\'s socket is not writable, against the replacement task '
+            'its borrow queued -- thorough: with a live request answered by the reactor meanwhile) '
             'with a scheduling point at every line '
             'of every HostConnection method and at every lock/condition; all schedules within the preemption bound; close() hook '
             'throughout, the state clauses at the end after everything outstanding was answered; deadlock and livelock detection.',
@@ -63,6 +72,7 @@ TO01 = [('timeout', 0), ('timeout', 1)]
 TO12 = [('timeout', 1), ('timeout', 2)]
 RETRY0 = ('resp-retry', 0)      # q0 answered with an error that the retry policy retries: the retry is an executor task
 T = ('task', 0, 'ok')
+UNW = ('unwritable', 1)         # the socket of the pool's first connection (#1; #0 is the control connection) stops being writable
 
 
 def e_configs(ctx):
@@ -80,9 +90,17 @@ def e_configs(ctx):
         # the same after q0's timer fired late (q0 is no longer on the wire) and the retry task found nothing to do
         ('late-timeout-overloaded-2-live', dict(BASE, prefix=[R, RETRY0, ('timeout', 0), T, R, R, R, R] + TO12, max_retry=1,
                                                 n_req=7), 5),
+        # Environment answer at a send: the socket of a pool connection is not writable (once per history, any open connection,
+        # at any point; it may become writable again) and Connection.send_msg refuses the request with ConnectionBusy -- the
+        # slot is given back without anything having been on the wire; and one request per history between whose borrow and
+        # send the next executor task (the replacement, possibly queued by that very borrow) runs to completion.
+        ('overloaded-0-live-unwritable-gap', dict(BASE, prefix=[R, R] + TO01, n_req=4, gap=True, max_unwritable=1), 4),
+        ('overloaded-1-live-unwritable-gap', dict(BASE, prefix=[R, R, R] + TO01, n_req=5, gap=True, max_unwritable=1), 4),
     ]
     if ctx.thorough:
-        q = [(n, dict(p, task_window=2, max_fail=2), d + (3 if '2-live' in n else 2))
+        q.append(('replacement-queued-2-live-unwritable-gap',
+                  dict(BASE, prefix=[R, R, R] + TO01 + [R], n_req=5, gap=True, max_unwritable=1), 4))
+        q = [(n, dict(p, task_window=2, max_fail=2), d + (1 if 'unwritable' in n else 3 if '2-live' in n else 2))
              for n, p, d in q]
     return q
 
@@ -90,7 +108,10 @@ def e_configs(ctx):
 def s_configs(ctx):
     hc = dict(prop='C13', clauses=CLAUSES, proto=4, max_in_flight=6, orphaned_threshold=2)
     b = 2 if ctx.thorough else 1
-    return [
+    more = [
+        ('send-refused-vs-replace-vs-return', dict(hc, stage=[R, R, R] + TO01 + [UNW], threads=['client', 'worker', 'reactor']), b),
+    ] if ctx.thorough else []
+    return more + [
         # replacement queued, q2 and q3 live on the old connection: _replace against their returns
         ('replace-vs-return', dict(hc, stage=[R, R, R] + TO01 + [R], threads=['worker', 'reactor']), b),
         # the borrow that notices the threshold, the replacement it queues and the answers overlap
@@ -120,6 +141,10 @@ def s_configs(ctx):
         ('borrow-vs-threshold-replace-return-no-conviction', dict(hc, convict=False, stage=[R, R, ('timeout', 0)],
                                                                   threads=['client', 'script'],
                                                                   script=[('timeout', 1), R, T, ('resp-mine', 0)]), b),
+        # The overloaded connection's socket is not writable: a client between its borrow (which queues the replacement) and its
+        # send -- refused with ConnectionBusy, the slot given back -- against the replacement task, with no live request on the
+        # old connection (thorough tier: also with one, answered by the reactor meanwhile)
+        ('send-refused-vs-replace', dict(hc, stage=[R, R] + TO01 + [UNW], threads=['client', 'worker']), b),
         # A borrower waiting for a slot on a full connection (3 slots) that was below the threshold when it arrived: all three
         # requests are given up, a further request queues the replacement and waits as well, the replacement closes the old
         # connection (three threads that block and wake each other: preemption bound 1 in both tiers)
@@ -160,6 +185,8 @@ def run(ctx):
     ctx.assume('the retried error is OVERLOADED with the retry policy answering RETRY (same host); other retryable errors take the same path')
     ctx.assume('a borrower that is still waiting for a slot on a replaced connection that is not closed yet (a live request is '
                'outstanding on it) may be refused when its borrow timeout expires: whether it should have moved is not judged')
+    ctx.assume('a request refused because the socket was not writable (ConnectionBusy, the only host) fails with NoHostAvailable: the '
+               'clause request-refused-beside-fresh-connection does not judge it (the refusal is the environment\'s, not the pool\'s)')
     ctx.assume('engine S, script threads: the handlers of several driver threads (timer, client, executor, reactor) run one after the '
                'other in one fixed order on one virtual thread; the borrower is preempted at most `bound` times')
     ctx.assume('engine S preempts between source lines, not inside one (CPython hands the GIL over between bytecodes; see DESIGN 3.1)')
